@@ -163,11 +163,58 @@ def correspond(ctx):
                                           "with_repeated_heading": sum(1 for c in cases if len([l for l in c.meta["lines"] if l["kind"] == "head"]) != len({l["text"] for l in c.meta["lines"] if l["kind"] == "head"})),
                                           "errors": sum(isinstance(c.impl, core.Err) for c in cases)}
     core.eval_cases(ctx, "K-group", ["model.Group", "run.RunGroup"], cases, chunk=80)
+    # re-grouping histories on the implementation: conservation of entries over a SECOND grouping
+    n_hist = 120 if ctx.tier == "quick" else 2500
+    for _ in range(n_hist):
+        plat = rnd.choice(["ios", "nxos"])
+        prefix = rnd.choice(["= ", "= ", "=="])
+        lines = gen_lines(rnd, prefix)
+        plan = rnd.choice(["insert_group", "insert_group", "other_prefix", "copy", "group_twice"])
+        sd = rnd.getrandbits(20)
+        f = regroup_history(ca, random.Random(sd), plat, prefix, lines, plan)
+        if f:
+            meta = {"k": "regroup", "platform": plat, "prefix": prefix, "lines": lines, "plan": plan, "seed": sd}
+            raise core.ImplViolation(dict(kind="input", kernel="K-group", input=meta, failure=f))
+    ctx.coverage["regroup_histories"] = n_hist
+
+
+def regroup_history(ca, rnd, plat, prefix, lines, plan):
+    """group(); then loose entries are put beside the blocks / the prefix changes / the ACL is copied; group()
+    again: no entry may be lost or duplicated, the TCAM estimate is the sum over the entries"""
+    try:
+        acl = build(ca, plat, lines)
+        want = sorted(i for i, l in enumerate(lines) if l["kind"] == "ace")
+        tcam = 1 + sum((l["src_n"] or 1) * (l["dst_n"] or 1) if l["kind"] == "ace" else 0 for l in lines)
+        acl.group(prefix)
+        if plan == "insert_group":
+            for j in range(rnd.randint(1, 3)):
+                a = ca.Ace(f"permit ip host 10.9.9.{j + 1} any", platform=plat, note=1000 + j)
+                acl.items.insert(rnd.randint(0, len(acl.items)), a)
+                want.append(1000 + j)
+                tcam += 1
+            acl.group(prefix)
+        elif plan == "other_prefix":
+            acl.group("=" if prefix != "=" else "==")
+            acl.group(prefix)
+        elif plan == "copy":
+            acl = acl.copy()
+        else:
+            acl.group(prefix)
+        got = sorted(n for n in flat_notes(acl) if isinstance(n, int) and (n >= 1000 or lines[n]["kind"] == "ace"))
+        if got != sorted(want):
+            return {"what": f"after group({prefix!r}) + {plan} the entries are {got}, expected {sorted(want)}"}
+        if acl.tcam_count() != tcam:
+            return {"what": f"after group({prefix!r}) + {plan} tcam_count() = {acl.tcam_count()}, expected {tcam}"}
+    except Exception as ex:  # noqa
+        return {"what": f"{plan}: {type(ex).__name__}: {ex}"}
+    return None
 
 
 def oracle(ctx, kernel, meta):
     ca = core.impl_module()
     lines, plat, prefix = meta["lines"], meta["platform"], meta["prefix"]
+    if meta.get("k") == "regroup":
+        return regroup_history(ca, random.Random(meta.get("seed", 0)), plat, prefix, lines, meta["plan"])
     try:
         acl = build(ca, plat, lines)
         text0 = acl.line
